@@ -19,8 +19,13 @@ ILL_COND = 50.0    # leading block with cond >= 100: contracted Q loses orthonor
 @st.composite
 def qr_cases(draw, tier, size=None):
     lo_, hi = size or (1, 7 if tier == "quick" else 9)
-    shape_kind = draw(st.sampled_from(["any", "any", "wide", "row", "col", "square", "tall"]))
+    shape_kind = draw(st.sampled_from(["any", "any", "wide", "row", "col", "square", "tall", "very_tall", "very_wide"]))
     m, n = draw(st.integers(lo_, hi)), draw(st.integers(lo_, hi))
+    if shape_kind in ("very_tall", "very_wide"):
+        # aspect ratio >= 4 with at least two lines on the short side (tall-skinny / short-fat data matrices)
+        sh_ = draw(st.integers(2, 3 if size is None else 5))
+        lg_ = 4 * sh_ + draw(st.integers(0, 4))
+        m, n = (lg_, sh_) if shape_kind == "very_tall" else (sh_, lg_)
     if shape_kind == "wide" and m >= n:
         m, n = min(m, n), max(m, n) + (1 if m == n else 0)
     elif shape_kind == "tall" and m <= n:
